@@ -256,7 +256,10 @@ pub fn insert_comments(p: &Prog, t: &mut Tape, policy: CommentPolicy, density: u
     for (i, tok) in p.toks.iter().enumerate() {
         // excluded by construction (open finding F-C14-comment-class-of): a comment that ends up
         // on its own line between `class` and `of` makes the parser open a class body
-        let class_of = i > 0 && p.toks[i - 1].text.eq_ignore_ascii_case("class") && tok.text.eq_ignore_ascii_case("of");
+        // (the same happens between `class` and the `;` of a forward declaration)
+        let class_of = i > 0
+            && p.toks[i - 1].text.eq_ignore_ascii_case("class")
+            && (tok.text.eq_ignore_ascii_case("of") || tok.text == ";");
         if i > 0 && !class_of && t.chance(1, density) {
             if tok.line_start {
                 let pick = t.below(4);
